@@ -122,7 +122,13 @@ contract(f"{SK}::_SktimeForecaster.update", "C10", cases=["params", "noparams", 
 
 def _pmc_inputs(B, case):
     obj, y_old = fitted_forecaster(B, abstract_methods=("_update_predict_single",))
-    obj.attrs["_update_predict_single"] = recorder("_update_predict_single", lambda I2, ev: Opaque("y_pred", prov=ev))
+    def _ups(I2, ev):
+        # what every single update-and-predict step does to the cutoff: it moves to the end of the batch it was given
+        w = ev.arg(0)
+        if isinstance(w, SSeries):
+            obj.attrs["_cutoff"] = w.index.fn(ops.simp(Z(w.index.len) - 1))
+        return Opaque("y_pred", prov=ev)
+    obj.attrs["_update_predict_single"] = recorder("_update_predict_single", _ups)
     obj.ghost_cutoff0 = obj.attrs["_cutoff"]
     y = next_batch(B, y_old, "y", may_overlap=False)
     cv = sym_splitter(B, "SlidingWindowSplitter", "noinit|nosww" if "nosww" in case else "noinit|sww")
@@ -139,7 +145,14 @@ def _pmc_events(S, evs):
     train, test = split_item(kind)(NS(self=A.cv, y=A.y.index), S.k).items
     want = rows(A.y, train.closed[0], train.len)
     fh = evs[0].arg(1)
-    return And(equiv(evs[0].arg(0), want), fh is S.fh, evs[0].kwargs.get("update_params") is A.update_params)
+    # the forecast of this step and the cutoff it was made from (= end of window k) are collected, in that pairing
+    yp, cs = S.y_preds, S.cutoffs
+    ypa = yp.appended if isinstance(yp, Opaque) else yp.items
+    csa = cs.appended if isinstance(cs, Opaque) else cs.items
+    if len(ypa) != 1 or len(csa) != 1 or ypa[0] is not evs[0].result:
+        return False
+    last = want.index.fn(ops.simp(Z(want.index.len) - 1))
+    return And(equiv(evs[0].arg(0), want), fh is S.fh, evs[0].kwargs.get("update_params") is A.update_params, Eq(csa[0], last))
 
 
 def _pmc_havoc_list(I, S):
@@ -147,7 +160,8 @@ def _pmc_havoc_list(I, S):
     I.ctx.assume(n >= 0)
     o = Opaque("accumulated list")
     o.listlen = n
-    o.opaque_methods = {"append": lambda I2, recv, a, kw: None}
+    o.appended = []
+    o.opaque_methods = {"append": lambda I2, recv, a, kw: o.appended.append(a[0])}
     return o
 
 
